@@ -100,19 +100,36 @@ def make_cfgs(rng, n, months_choices=(12, 13, 24)):
         }
         if cfg["flow_type"] == "SYSTEM":
             cfg["flow"] = round(cfg["flow"] * rng.choice([4, 12, 30]), 3)
-        # force every outcome of the search into every sample: unmet-but-continued at the maximum
-        # height (loads far too large), at the minimum height (negligible loads), and the error
-        if i % 8 == 3:
+        # force every outcome of the search into every sample and every design method: across the
+        # rounds r = i // 6 each geometry g = i % 6 gets (r + g) % 4 = 1: unmet-but-continued at the
+        # maximum height (loads far too large), = 2: at the minimum height (negligible loads),
+        # = 3: loads far too large without the flag (the error), = 0: random
+        forced = (i // len(GEOMS) + i % len(GEOMS)) % 4
+        if forced == 1:
             cfg["scale"], cfg["cont"], cfg["profile"] = 6.0 + (i % 5), True, "atlanta"
             cfg["loads"] = [x * cfg["scale"] for x in ghelib.atlanta_loads()]
-        elif i % 8 == 5:
+        elif forced == 2:
             cfg["scale"], cfg["cont"], cfg["profile"] = 0.002, True, "atlanta"
             cfg["loads"] = [x * cfg["scale"] for x in ghelib.atlanta_loads()]
-        elif i % 8 == 7:
+        elif forced == 3 and i % 3 == 0:
             cfg["scale"], cfg["cont"], cfg["profile"] = 6.0 + (i % 3), False, "atlanta_neg"
             cfg["loads"] = [-x * cfg["scale"] for x in ghelib.atlanta_loads()]
         cfgs.append(cfg)
-    return cfgs
+    # history: every third configuration is followed, ON THE SAME MANAGER, by a second project that
+    # re-applies only the loads and the geometry (simulation parameters, borehole, pipe, media are
+    # left as they are) and calls set_design / find_design again; the same final configuration is
+    # also run on a fresh manager (appended to the list) so that the two can be compared
+    extra = []
+    for i, cfg in enumerate(list(cfgs)):
+        if i % 3 != 1:
+            continue
+        kind, scale, loads = ghelib.make_profile(rng, kind=rng.choice(["atlanta", "atlanta_neg", "balanced"]),
+                                                 scale=cfg["scale"] * rng.choice([0.2, 0.5, 3.0, 8.0]))
+        g2 = make_geom(rng, rng.choice([cfg["geom"][0], GEOMS[(GEOMS.index(cfg["geom"][0]) + 1) % len(GEOMS)]]))
+        b = {**cfg, "id": len(cfgs) + len(extra), "profile": kind, "scale": scale, "loads": loads, "geom": g2, "follows": cfg["id"]}
+        cfg["followed_by"] = {k: v for k, v in b.items()}
+        extra.append(b)
+    return cfgs + extra
 
 
 # ----------------------------------------------------------------------------- instrumentation
@@ -294,6 +311,15 @@ def run_design(cfg):
         out["evals"] = rec.evals
         out["roots"] = rec.roots
         out["sizes"] = rec.sizes
+        # evaluation-log faithfulness: re-do up to three logged evaluations from fresh objects exactly
+        # as the search stage does (GHE built at that height on a one-height g-function) -- the first
+        # two (smallest field at min and max height) and the predecessor of the selected candidate
+        try:
+            out["eval_checks"] = recheck_evals(cfg, out, m._design if "m" in dir() else None)
+        except Exception as e:  # noqa: BLE001
+            out["eval_checks_error"] = f"{type(e).__name__}: {e}"
+        if cfg.get("followed_by") is not None and "m" in dir():
+            out["second"] = second_project(m, cfg["followed_by"])
         if out["outcome"] == "design":
             # the searches build their final GHE (and its hybrid load) at max_height, except the
             # "loads too small" continue_if_design_unmet fallback, which builds it at min_height
@@ -311,6 +337,82 @@ def run_design(cfg):
         out["message"] = f"{type(e).__name__}: {e}"
         out["tb"] = traceback.format_exc().splitlines()[-6:]
     out["wall_s"] = round(time.time() - t0, 2)
+    return out
+
+
+def search_stage_excess(cfg, coords, h):
+    """What calculate_excess(coords, h) must return, from fresh objects: GHE built at height h on a
+    g-function computed for [h], simulated with the hybrid method."""
+    from ghedesigner.enums import TimestepType
+    from ghedesigner.gfunction import calc_g_func_for_multiple_lengths
+    from ghedesigner.ground_heat_exchangers import GHE
+    from ghedesigner.simulation import SimulationParameters
+    from ghedesigner.utilities import borehole_spacing, eskilson_log_times
+
+    phys = dict(cfg["phys"])
+    phys["borehole"] = (h, phys["borehole"][1], phys["borehole"][2])
+    m = ghelib.build_manager({**cfg, "phys": phys, "nominal_height": h})
+    fluid, pipe, grout, soil, borehole, bhe_type = m._fluid, m._pipe, m._grout, m._soil, m._borehole, m.pipe_type
+    sim = SimulationParameters(1, cfg["months"], cfg["max_eft"], cfg["min_eft"], cfg["max_h"], cfg["min_h"])
+    n = len(coords)
+    v = cfg["flow"]
+    v_sys = v * n if cfg.get("flow_type", "BOREHOLE") == "BOREHOLE" else v
+    m_bh = v_sys / n / 1000.0 * fluid.rho
+    b = borehole_spacing(borehole, coords)
+    with ghelib.quiet():
+        g = calc_g_func_for_multiple_lengths(b, [h], borehole.r_b, borehole.D, m_bh, bhe_type, eskilson_log_times(), coords, fluid, pipe, grout, soil)
+        ghe = GHE(v_sys, b, bhe_type, fluid, borehole, pipe, grout, soil, g, sim, cfg["loads"])
+        mx, mn = ghe.simulate(method=TimestepType.HYBRID)
+    return float(excess_of(cfg, mx, mn))
+
+
+def recheck_evals(cfg, out, design):
+    """[(where, list, idx, h, logged excess, fresh excess)] for a few logged evaluations."""
+    if design is None or cfg["geom"][0] == "ROWWISE":
+        return []
+    dom = getattr(design, "coordinates_domain", None)
+    nested = getattr(design, "coordinates_domain_nested", None)
+    picks = []
+    ev = out.get("evals", [])
+    flat = [e for e in ev if e["where"] in ("flat", "inner")]
+    for e in flat[:2]:
+        picks.append(e)
+    if out.get("outcome") == "design" and out.get("sel_key"):
+        last = final_search_evals(out)
+        pred = [e for e in last if e["idx"] == out["sel_key"] - 1 and e["h"] == cfg["max_h"]]
+        picks += pred[-1:]
+    res, seen = [], set()
+    for e in picks:
+        key = (e["where"], e["list"], e["idx"], e["h"])
+        if key in seen or not math.isfinite(e["excess"]):
+            continue
+        seen.add(key)
+        coords = (dom[e["idx"]] if e["where"] == "flat" else nested[e["list"]][e["idx"]])
+        coords = [list(map(float, c)) for c in coords]
+        res.append({"where": e["where"], "list": e["list"], "idx": e["idx"], "h": e["h"], "nbh": len(coords),
+                    "logged": e["excess"], "fresh": search_stage_excess(cfg, coords, e["h"])})
+    return res
+
+
+def second_project(m, cfgb):
+    """Re-use manager `m` (already used for one project) for configuration B by re-applying only the
+    loads and the geometry, then set_design / find_design."""
+    out = {"id": cfgb["id"]}
+    try:
+        with ghelib.quiet():
+            m.set_ground_loads_from_hourly_list(cfgb["loads"])
+            ghelib.set_geometry(m, cfgb["geom"])
+            m.set_design(cfgb["flow"], cfgb.get("flow_type", "BOREHOLE"))
+            try:
+                m.find_design()
+                ghe = m._search.ghe
+                out.update(outcome="design", nbh=len(ghe.gFunction.bore_locations), H=float(ghe.bhe.b.H),
+                           live_max=float(max(ghe.hp_eft)), live_min=float(min(ghe.hp_eft)),
+                           max_boreholes_after=m._simulation_parameters.max_boreholes)
+            except Exception as e:  # noqa: BLE001
+                out.update(outcome="ValueError" if isinstance(e, ValueError) else "raise " + type(e).__name__, message=str(e)[:200])
+    except Exception as e:  # noqa: BLE001
+        out.update(outcome="harness-error", message=f"{type(e).__name__}: {e}")
     return out
 
 
